@@ -1,7 +1,7 @@
 #!/bin/bash
 # usage: tools/run_seeded.sh [names...]  -- run every seeded change against the checks that should catch it (quick tier)
 cd "$(dirname "$0")/.."
-declare -A EXTRA=( [C02-m1]="C10" [C16-m2]="C09" [C03-m1]="C04 C03" [C04-m1]="C04 C03" [C09-m2]="C09 C06" [C06-m2]="C06 C01" [C01-m1]="C01 C06" )
+declare -A EXTRA=( [C02-m1]="C10" [C16-m2]="C09" [C03-m1]="C04 C03" [C04-m1]="C04 C03" [C09-m2]="C09 C06" [C06-m2]="C06 C01" [C01-m1]="C01 C06" [C01-m4]="C01 C08" [C03-m4]="C02 C10" [C15-m4]="C15 C08" )
 NAMES="${@:-$(ls seeded)}"
 for name in $NAMES; do
   prop=$(echo $name | cut -d- -f1)
